@@ -151,6 +151,15 @@ fn ex(sender: &str, funds: Vec<Coin>, msg: ExecuteMsg) -> Step {
 }
 
 /// every request worth attempting from this state
+/// the same number with 29 fractional digits
+fn long_form(p: &str) -> String {
+    let (int, frac) = match p.split_once('.') {
+        Some((a, b)) => (a, b),
+        None => (p, ""),
+    };
+    format!("{}.{}{}", int, frac, "0".repeat(29usize.saturating_sub(frac.len())))
+}
+
 pub fn alphabet(sc: &Scope, asks: &[(String, AskOrderV1)], bids: &[(String, BidOrderV3)], info: &ContractInfoV3) -> Vec<Step> {
     let mut v = vec![];
     let inc = info.size_increment.u128().max(1);
@@ -193,7 +202,8 @@ pub fn alphabet(sc: &Scope, asks: &[(String, AskOrderV1)], bids: &[(String, BidO
     }
     if !has(A2) {
         for sz in sizes {
-            v.push(ex(sc.seller2, funds_for(sc, "conv1", sz), ExecuteMsg::CreateAsk { id: s(A2), base: s("conv1"), quote: quote.clone(), price: s(sc.ask_prices[1]), size: Uint128::new(sz) }));
+            // the convertible ask's price in its long form (29 fractional digits: `from_str` rounds it back)
+            v.push(ex(sc.seller2, funds_for(sc, "conv1", sz), ExecuteMsg::CreateAsk { id: s(A2), base: s("conv1"), quote: quote.clone(), price: long_form(sc.ask_prices[1]), size: Uint128::new(sz) }));
         }
     }
     // create bids
@@ -206,7 +216,10 @@ pub fn alphabet(sc: &Scope, asks: &[(String, AskOrderV1)], bids: &[(String, BidO
             v.push(ex("mallory", funds_for(sc, &quote, total + fee_amt), ExecuteMsg::CreateBid { id: s(B1), base: info.base_denom.clone(), fee, price: s(sc.bid_prices[0]), quote: quote.clone(), quote_size: Uint128::new(total), size: Uint128::new(sizes[0]) }));
         }
     }
-    for (id, prices) in [(B1, &sc.bid_prices[..]), (B2, &sc.bid_prices[..1]), (A1, &sc.bid_prices[..1])] {
+    // the second bid's price is written in its long form
+    let long0 = long_form(sc.bid_prices[0]);
+    let long_prices = [long0.as_str()];
+    for (id, prices) in [(B1, &sc.bid_prices[..]), (B2, &long_prices[..]), (A1, &sc.bid_prices[..1])] {
         if hasb(id) || (id == A1 && !has(A1)) {
             continue;
         }
